@@ -311,6 +311,14 @@ def run_property(pid, tier="quick", replay=None, repo_root=None, write_evidence=
                 "notes": [r.to_json() for r in notes][:80],
                 "known_findings_matched": [r.key for r in known_viol],
                 "selftest": getattr(mod, "LAST_SELFTEST", None),
+                "pipeline": {
+                    "canonicalisation": "every function is rewritten towards /verif/reference by semantics-preserving steps before the rules run "
+                                        "(tmverif.canon); functions changed on this run: %s" % (clog if clog else "none (tree identical to the reference)"),
+                    "equivalence_fallback": equiv_note or "not needed (every rule reached a verdict of HOLDS directly)",
+                    "rewrite_gate": gate_note or "no spelling-based finding to gate",
+                    "path_gate": path_note or "no value-returning return path beyond the confirmed ones",
+                    "semantic_findings": sorted({r.rule for r in verdicts if r.semantic or r.rule in sem_rules}),
+                },
                 "exhaustive": False,
             },
             "assumptions": list(getattr(mod, "ASSUMPTIONS", [])),
